@@ -263,7 +263,22 @@ def run(ctx):
     runs = []
     for _ in range(n):
         numel, frame = gen_history(rng)
+        nv = len(ctx.violations)
         ops, states, cj = run_history(ctx, numel, frame, None, rng=rng)
+        if len(ctx.violations) > nv and len(ops) > 1:
+            from common import ProbeCtx, shrink_ops
+
+            def fails(sub):
+                pc = ProbeCtx(ctx)
+                run_history(pc, numel, frame, sub)
+                return bool(pc.violations)
+            small = shrink_ops(ops, fails)
+            pc = ProbeCtx(ctx)
+            _, _, cjs = run_history(pc, numel, frame, small)
+            if pc.violations:
+                v = pc.violations[0]
+                cjs["shrunk_from"] = len(ops)
+                ctx.violations.insert(0, {"what": v["what"] + f" [history shrunk from {len(ops)} to {len(small)} operations]", "case": cjs, "tags": v["tags"]})
         runs.append((line(numel, frame, ops), states, cj, ops, frame))
     lines = [r[0] for r in runs]
     answers = ctx.drive(lines) if ctx.lean.driver_ok and not ctx.oracle_only else [None] * n
